@@ -34,7 +34,7 @@ ASSUMPTIONS = [
 ]
 BUDGET_S = {"quick": 300, "thorough": 3000}
 
-NS_QUICK = list(range(1, 25)) + [32, 50, 64, 100, 128]
+NS_QUICK = list(range(1, 25)) + [32, 50, 64, 100, 128, 129, 200, 257]
 NS_THOROUGH = list(range(1, 301))
 FORMS_QUICK = ["float", "int", "t0", "t1", "mixed"]
 FORMS_THOROUGH = ["float", "int", "t0", "t1", "mixed", "mixed2", "mixed3"]
